@@ -98,6 +98,172 @@ def e2e_part(chk, tier, E, fails):
             chk.add_sample({"flags": gflags, "expected_output_head": want.decode()[:300]})
 
 
+CHAIN_MAIN = '''package main
+
+import (
+	"encoding/json"
+	"fmt"
+	"reflect"
+)
+
+%(types)s
+var outbox []any
+
+%(convs)s
+func describe() {
+	for _, v := range outbox {
+		t := reflect.TypeOf(v)
+		fmt.Printf("%%s %%s %%s\\n", t.Name(), t.Field(0).Name, t.Field(1).Name)
+	}
+}
+
+func main() {
+	v0 := %(first)s{Payload: "hi", Seq: 1}
+	b, _ := json.Marshal(v0)
+	fmt.Println(string(b))
+%(calls)s
+	outbox = append(outbox, %(all)s)
+	describe()
+}
+'''
+
+
+def chain_program(rnd, n=6):
+    """identically shaped structs converted into one another, each in its own function; only the first reaches a
+    reflecting API directly: reflection has to propagate along the whole chain, whatever order functions are visited in"""
+    stem = "".join(rnd.choice("qxzjkv") for _ in range(4))
+    names = ["%sMsg%s%d" % (w, stem, i) for i, w in enumerate(["Hello", "Ack", "Relay", "Forward", "Reply", "Close", "Extra", "Last"][:n])]
+    types = "".join("type %s struct {\n\tPayload string\n\tSeq     int\n}\n\n" % t for t in names)
+    convs = "".join("func conv%d(m %s) %s { return %s(m) }\n" % (i, names[i], names[i + 1], names[i + 1]) for i in range(n - 1))
+    calls = "".join("\tv%d := conv%d(v%d)\n" % (i + 1, i, i) for i in range(n - 1))
+    return {"go.mod": "module gv.test/chain%s\n\ngo 1.26\n" % stem,
+            "main.go": CHAIN_MAIN % {"types": types, "convs": convs, "first": names[0], "calls": calls, "all": ", ".join("v%d" % i for i in range(n))}}
+
+
+def fixed_scenarios(chk, tier, E, fails):
+    from . import c06
+    rnd = random.Random(chk.seed * 83 + 4)
+    st = chk.cov["streams"].setdefault("e2e:reflect-scenarios", {"chain_builds": 0, "layered_builds": 0})
+    # (1) the conversion chain, analysed afresh several times (map iteration order differs from process to process)
+    files = chain_program(rnd)
+    root = E.write_module("chain", files)
+    pb = E.run_go(["build", "-trimpath", "-o", "plain", "."], root)
+    if pb.returncode == 0:
+        _, want, _ = E.run_bin(os.path.join(root, "plain"))
+        for k in range(4 if tier == "quick" else 16):
+            open(os.path.join(root, "main.go"), "a").write("\n// analysis %d\n" % k)
+            gb = E.run_garble([], ["build", "-o", "garbled", "."], root)
+            st["chain_builds"] += 1
+            chk.count_cases(["chain|%d" % k])
+            if gb.returncode != 0:
+                fails.append({"why": "garble build fails on the conversion chain", "detail": gb.stderr[-800:], "key": "reflect-build-fails"}); break
+            _, got, _ = E.run_bin(os.path.join(root, "garbled"))
+            if got != want:
+                fails.append({"why": "a struct converted from a reflected struct loses its names (reflection must propagate along conversions whatever order functions are analysed in)",
+                              "detail": {"build": k, "want": want.decode()[-400:], "got": got.decode("utf-8", "replace")[-400:]}, "files": files, "key": "reflect-conversion-chain"})
+                break
+    else:
+        chk.notes.append("chain program does not build: " + pb.stderr[-300:])
+    # (2) main -> mid -> leaf, main reflects on a mid type holding leaf types and does not import leaf; a comment-only edit of leaf
+    mod = "gv.test/layers"
+    lfiles = {"go.mod": "module %s\n\ngo 1.26\n" % mod,
+              "main.go": 'package main\n\nimport (\n\t"encoding/json"\n\t"fmt"\n\t"reflect"\n\n\t"%s/mid"\n)\n\nfunc main() {\n\tenv := mid.Envelope{ID: 7}\n\tenv.Body.Text = "hello"\n\tenv.Body.Meta.Lang = "en"\n\tb, _ := json.Marshal(env)\n\tfmt.Println(string(b))\n\tt := reflect.TypeOf(env)\n\tfor i := range t.NumField() {\n\t\tfmt.Println(t.Name(), t.Field(i).Name, t.Field(i).Type.Name())\n\t}\n\tbody := t.Field(1).Type\n\tfor i := range body.NumField() {\n\t\tfmt.Println(body.Name(), body.Field(i).Name, body.Field(i).Type.Name())\n\t}\n}\n' % mod,
+              "mid/mid.go": 'package mid\n\nimport "%s/leaf"\n\ntype Envelope struct {\n\tID   int\n\tBody leaf.Body\n}\n' % mod,
+              "leaf/leaf.go": "package leaf\n\ntype Meta struct {\n\tLang string\n}\n\ntype Body struct {\n\tText string\n\tMeta Meta\n}\n"}
+    root = E.write_module("layers", lfiles)
+    pb = E.run_go(["build", "-trimpath", "-o", "plain", "."], root)
+    if pb.returncode == 0:
+        _, want, _ = E.run_bin(os.path.join(root, "plain"))
+        for k, edit in enumerate([None, "leaf/leaf.go", "mid/mid.go", "leaf/leaf.go"]):
+            if edit:
+                open(os.path.join(root, edit), "a").write("\n// edit %d\n" % k)
+            gb = E.run_garble([], ["build", "-o", "garbled", "."], root)
+            st["layered_builds"] += 1
+            chk.count_cases(["layers|%d|%s" % (k, edit)])
+            if gb.returncode != 0:
+                fails.append({"why": "garble build fails on the layered module", "detail": gb.stderr[-800:], "key": "reflect-build-fails"}); break
+            _, got, _ = E.run_bin(os.path.join(root, "garbled"))
+            if got != want:
+                fails.append({"why": "after a comment-only edit in an INDIRECT dependency the reflected names of its types are wrong (stale per-package reflection cache)",
+                              "detail": {"step": k, "edited": edit, "want": want.decode()[-400:], "got": got.decode("utf-8", "replace")[-400:]}, "key": "reflect-stale-after-indirect-edit"})
+                break
+    else:
+        chk.notes.append("layered program does not build: " + pb.stderr[-300:])
+    # (3) values that reach a reflecting API without ever being stored: call results, field / element loads, assertions
+    stem = "".join(rnd.choice("qxzjkv") for _ in range(4))
+    vfiles = {"go.mod": "module gv.test/direct%s\n\ngo 1.26\n" % stem,
+              "main.go": '''package main
+
+import (
+	"encoding/json"
+	"fmt"
+)
+
+type Envelope%(s)s struct {
+	Ident int
+	Body  Inner%(s)s
+}
+
+type Inner%(s)s struct{ TextValue string }
+
+type Holder%(s)s struct{ Kept Loaded%(s)s }
+
+type Loaded%(s)s struct{ LoadedField int }
+
+type Asserted%(s)s struct{ AssertedField bool }
+
+type Elem%(s)s struct{ ElemField string }
+
+//go:noinline
+func newEnv(n int) Envelope%(s)s { return Envelope%(s)s{Ident: n, Body: Inner%(s)s{TextValue: "t"}} }
+
+//go:noinline
+func newPtr() *Inner%(s)s { return &Inner%(s)s{TextValue: "p"} }
+
+//go:noinline
+func pick(v any) any { return v }
+
+func show(v any) {
+	b, err := json.Marshal(v)
+	fmt.Println(string(b), err)
+}
+
+func main() {
+	b, _ := json.Marshal(newEnv(3))
+	fmt.Println(string(b))
+	c, _ := json.Marshal(newPtr())
+	fmt.Println(string(c))
+	h := Holder%(s)s{}
+	d, _ := json.Marshal(h.Kept)
+	fmt.Println(string(d))
+	e, _ := json.Marshal(pick(Asserted%(s)s{true}).(Asserted%(s)s))
+	fmt.Println(string(e))
+	m := map[string]Elem%(s)s{"k": {"v"}}
+	f, _ := json.Marshal(m["k"])
+	fmt.Println(string(f))
+}
+''' % {"s": stem}}
+    root = E.write_module("direct", vfiles)
+    pb = E.run_go(["build", "-trimpath", "-o", "plain", "."], root)
+    if pb.returncode == 0:
+        _, want, _ = E.run_bin(os.path.join(root, "plain"))
+        gb = E.run_garble([], ["build", "-o", "garbled", "."], root)
+        st["direct_value_builds"] = st.get("direct_value_builds", 0) + 1
+        chk.count_cases(["direct-values"])
+        if gb.returncode != 0:
+            fails.append({"why": "garble build fails on the direct-value program", "detail": gb.stderr[-800:], "key": "reflect-build-fails"})
+        else:
+            _, got, _ = E.run_bin(os.path.join(root, "garbled"))
+            if got != want:
+                wl, gl = want.decode().splitlines(), got.decode("utf-8", "replace").splitlines()
+                first = next((j for j, (a, b) in enumerate(zip(wl, gl)) if a != b), 0)
+                kinds = ["call result (struct)", "call result (pointer)", "field load", "type assertion", "map element"]
+                fails.append({"why": "a value passed to a reflecting API straight from an expression (never stored in a variable) loses its names",
+                              "detail": {"expression": kinds[first] if first < len(kinds) else first, "want": wl[first][:200], "got": gl[first][:200] if first < len(gl) else ""}, "key": "reflect-direct-value"})
+    else:
+        chk.notes.append("direct-value program does not build: " + pb.stderr[-300:])
+
+
 def main(tier, replay=None):
     chk = core.Check(PID, tier)
     core.build_tools()
@@ -108,6 +274,7 @@ def main(tier, replay=None):
     try:
         oracle_part(chk, tier, E, orc, diffs, fails)
         e2e_part(chk, tier, E, fails)
+        fixed_scenarios(chk, tier, E, fails)
     finally:
         E.cleanup()
     if diffs:
